@@ -101,13 +101,13 @@ PROPS = {
                         'the cycle-breaking heuristics (breakCycle)', 'liveness: that a real cycle always stalls the loop; termination of the search (finite simple paths)'],
     },
     'C08': {
-        'units': ['extcmd', 'fileinfo', 'extcmd_run', 'extcmd_result', 'shelldeps_dispatch', 'nodetasks'],
+        'units': ['extcmd', 'fileinfo', 'extcmd_run', 'extcmd_result', 'shelldeps_dispatch', 'nodetasks', 'archive'],
         'design_ref': 'DESIGN.md section 4, C08',
         'claim': 'kernel only: ExternalCommand::isResultValid declares a stored result valid only if every non-virtual output still matches what the '
                  'command produced (existence only for mutated outputs) and never for a non-successful stored result; FileInfo ==/!= and '
                  'getInfoForPath (shared with C13) decide "has this file changed"; computeCommandResult records one info per output in output order (the epoch for a command-timestamp node, the all-zero record for a virtual node, the current file info otherwise; at most 4 outputs named), '
                  'canUpdateIfNewerWithResult allows an update without running only with allow-modified-outputs and every recorded output existing; getResultForOutput gives output k the k-th recorded info (existing input with exactly that info / missing output / virtual input); '
-                 'FileInputNodeTask: a source file value is valid exactly when existence and file information are unchanged, and building it records the current information once; ProducedNodeTask hands its producing command exactly this node and the delivered value; a command that left the description builds to an invalid value with the change forced; a target is re-evaluated in every build; CommandTask forwards exactly the delivered values and input ids to its command; the deps-file dispatch of the shell command (see C11)',
+                 'FileInputNodeTask: a source file value is valid exactly when existence and file information are unchanged, and building it records the current information once; ProducedNodeTask hands its producing command exactly this node and the delivered value; a command that left the description builds to an invalid value with the change forced; a target is re-evaluated in every build; CommandTask forwards exactly the delivered values and input ids to its command; the deps-file dispatch of the shell command (see C11); the archive tool removes the OLD ARCHIVE (archiveName, with ignore-missing) before re-creating it and fails the command when that removal fails',
         'not_decided': ['on-disk equivalence with a clean build (everything the title says)', 'the per-key-kind rule dispatch in lookupRule (closures)',
                         'StatTask / ProducedDirectoryNodeTask, the start / inputsAvailable halves of TargetTask and CommandTask (closures)'],
     },
@@ -143,13 +143,13 @@ PROPS = {
         'not_decided': ['that a later change to P re-executes the command (paper lemma L1)', 'the contents of the file system (a ghost answer per path)'],
     },
     'C12': {
-        'units': ['dirtree', 'dirfilter', 'platmatch'],
+        'units': ['dirtree', 'dirfilter', 'platmatch', 'dirinput'],
         'design_ref': 'DESIGN.md section 4, C12 (lemma L2 on paper)',
         'claim': 'kernel: a directory-tree (structure) signature task requests the (filtered) contents key of its path, one node key per listed name in '
                  'order and, for every child that is an existing directory, exactly one sub-tree signature key for path/name WITH THE SAME FILTERS; stores '
                  'each value in the slot of its id; feeds the hash chain with the path, the directory value (structure: only its mode) and for every child '
                  'in order its value (structure: its name and its mode) and its sub-signature or the nil marker; DirectoryContentsTask::isResultValid '
-                 'invalidates on existence, type, stat or listing changes (length and names in order); getFilteredContents lists an entry exactly once iff no pattern matches its name, independently of the other entries (at most 4 entries / 3 patterns named in the model), and sorts the listing; sys::filenameMatch asks fnmatch(3) about pattern and name in that order with no flags (case sensitive) and maps 0 / FNM_NOMATCH / other to match / no match / error',
+                 'invalidates on existence, type, stat or listing changes (length and names in order); getFilteredContents lists an entry exactly once iff no pattern matches its name, independently of the other entries (at most 4 entries / 3 patterns named in the model), and sorts the listing; sys::filenameMatch asks fnmatch(3) about pattern and name in that order with no flags (case sensitive) and maps 0 / FNM_NOMATCH / other to match / no match / error; DirectoryInputNodeTask: the must-scan-after paths are requested first, as nodes, in order, under input ids 1, 2, ... (0 is reserved), the tree signature of the node directory (trailing slash dropped, node exclusion patterns) is requested under id 0 at once when there are none and otherwise exactly when the last of them arrived, and the task value is the signature it was given',
         'not_decided': ['real directory iteration, symlinks, fnmatch filtering (getFilteredContents not under contract)', 'that a deep edit reaches the root '
                         '(lemma L2, induction on depth, paper)', 'hash collision freedom', 'names are compared by identity (string equality is assumed)'],
     },
@@ -175,11 +175,11 @@ PROPS = {
                         'recursive directory removal (FileSystem::remove)'],
     },
     'C15': {
-        'units': ['buildkey', 'buildvalue', 'buildvalue_codec', 'bincode'],
+        'units': ['buildkey', 'buildvalue', 'buildvalue_codec', 'bincode', 'fileinfo_codec'],
         'design_ref': 'DESIGN.md section 4, C15',
         'claim': 'BuildKey: kind tag <-> kind maps are inverse on the nine kinds and distinct (spec table checked for distinctness), getKind reads the '
                  'tag byte, and every accessor of the two wire shapes returns exactly the length-delimited name / payload span for arbitrary bytes '
-                 '(keys shorter than 2^32 bytes); BuildValue: a kind\'s signature / output infos / string list are encoded and decoded exactly when its factory takes them; BuildValue::toData and the decoding constructor walk the same item sequence (kind; signature, count + infos in order, string list -- each exactly when the factory of the kind takes that payload), the decoder allocating a block of exactly the count read; BinaryEncoder::write / BinaryDecoder::read of 8/16/32/64-bit integers write and read the little-endian bytes and advance by the width (so decode(encode(x)) = x at item and at byte level)',
+                 '(keys shorter than 2^32 bytes); BuildValue: a kind\'s signature / output infos / string list are encoded and decoded exactly when its factory takes them; BuildValue::toData and the decoding constructor walk the same item sequence (kind; signature, count + infos in order, string list -- each exactly when the factory of the kind takes that payload), the decoder allocating a block of exactly the count read; BinaryEncoder::write / BinaryDecoder::read of 8/16/32/64-bit integers write and read the little-endian bytes and advance by the width (so decode(encode(x)) = x at item and at byte level); BuildKey(tag, name) builds the tag byte followed by ALL bytes of the name (length from the StringRef, not from a terminator); BinaryCodingTraits<FileChecksum> writes the 32 checksum bytes in order and reads them back in order, each byte as itself (0x00 included)',
         'not_decided': ['the key constructors (std::string building)', 'StringList encode / decode and FileInfo coding traits (items here)', 'the decoder does not check that it stays inside its data (corrupt stored values)'],
     },
     'C16': {
@@ -189,7 +189,7 @@ PROPS = {
                  'also after cancellation, and wakes a lane with the mutex held; FifoScheduler is first-in first-out; the take-a-job step of a lane '
                  '(a segment of executeLane) removes exactly one job, from the priority queue whenever it has one, sleeps only with the mutex held after '
                  'observing both queues empty and no shutdown, and leaves only on shutdown with both queues drained; after cancellation executeProcess starts '
-                 'nothing and completes the request exactly once as cancelled; a reaped process yields exactly one processFinished and one completion',
+                 'nothing and completes the request exactly once as cancelled; a reaped process yields exactly one processFinished and one completion; an interrupted wait4 (EINTR) is retried - a process is given up unreaped only for another error; ProcessGroup::signalAll (see C05)',
         'not_decided': ['the lane limit and "at most N jobs at once" (a property of the thread set)', 'interleavings of lanes, exactly-once across threads, data races',
                         'spawnProcess, pipe draining, process groups, the kill-after-timeout thread', 'released (background) lanes'],
     },
@@ -229,9 +229,9 @@ PROPS = {
         'design_ref': 'DESIGN.md section 4, C20',
         'claim': 'the C entry points llb_buildengine_task_needs_input / must_follow / discovered_dependency / task_is_complete / '
                  'build / attach_db call the C++ engine exactly once with the key or value bytes and explicit length (NUL-safe), '
-                 'the same input id, force_change, schema version and recreateUnmatchedVersion == true, and return the engine\'s answer; the callback half: CAPITask::start / provideValue / inputsAvailable and CAPIRule::createTask / isResultValid / updateStatus hand the client its own context, the engine context, the task interface, the input id, the value bytes with their length and the status unchanged, call the client exactly once, and treat a missing is_result_valid / update_status callback as valid / no-op',
+                 'the same input id, force_change, schema version and recreateUnmatchedVersion == true, and return the engine\'s answer; the callback half: CAPITask::start / provideValue / inputsAvailable and CAPIRule::createTask / isResultValid / updateStatus hand the client its own context, the engine context, the task interface, the input id, the value bytes with their length and the status unchanged, call the client exactly once, and treat a missing is_result_valid / update_status callback as valid / no-op; cycleDetected hands the client one (length, pointer) pair per rule of the cycle, in order, pointing INTO the key of that rule (not into a temporary copy), once, with the client context',
         'not_decided': ['event-by-event equality of whole builds (follows from the forwarders being identities)',
-                        'lookupRule / cycleDetected / error of the delegate wrapper and BuildDB-C-API.cpp'],
+                        'lookupRule / error of the delegate wrapper and BuildDB-C-API.cpp'],
     },
 }
 
